@@ -1,4 +1,4 @@
-//@unit name=wirerows props=C20
+//@unit name=wirerows props=C20,C16
 //@strip-pub
 // Unit `wirerows`: the result-set decoder (C20: any byte sequence that is not a valid frame is
 // answered with a protocol error rather than a crash, a hang or an unbounded allocation; a valid
